@@ -85,12 +85,136 @@ replay(const std::string &file, bool trace)
   return vsched::reports().empty() ? 0 : 10;
 }
 
+
+
+/*------------------------------------------------------------------------------
+ * bounded sweep: a fixed catalogue of tiny programs x ALL schedules with <= 2 step-level
+ * preemptions (deterministic, seed independent; complete for that sub-space)
+ *----------------------------------------------------------------------------*/
+using lockcase::Op;
+std::vector<Op>
+mini(int cls, int which)
+{
+  using namespace lockcase;  // NOLINT
+  auto mk = [](uint8_t code, int a = 0, int b = 0, int c = 0, uint32_t arg = 0) {
+    Op o;
+    o.code = code;
+    o.a = static_cast<uint8_t>(a);
+    o.b = static_cast<uint8_t>(b);
+    o.c = static_cast<uint8_t>(c);
+    o.arg = arg;
+    return o;
+  };
+  switch (which) {
+    case 0: return {mk(ACQ_S, 0, 0), mk(READ, kS, 0), mk(REL, kS, 0)};
+    case 1: return {mk(ACQ_SIX, 0, 0), mk(READ, kI, 0), mk(REL, kI, 0)};
+    case 2: return {mk(ACQ_X, 0, 0), mk(WRITE, 0), mk(REL, kX, 0)};
+    case 3: return {mk(ACQ_SIX, 0, 0), mk(UPG, 0, 0), mk(WRITE, 0), mk(REL, kX, 0)};
+    case 4: return {mk(ACQ_X, 0, 0), mk(WRITE, 0), mk(DWN, 0, 0), mk(READ, kI, 0), mk(REL, kI, 0)};
+    case 5: return {mk(ACQ_X, 0, 0), mk(DWN, 0, 0), mk(UPG, 0, 1), mk(WRITE, 1), mk(DROP, kX, 1)};
+    case 6: if (cls != kOpt) return {}; return {mk(GETVER, 0, 0), mk(OPTREAD, kO, 0), mk(VERIFY, 0)};
+    case 7: if (cls != kOpt) return {}; return {mk(GETVER, 0, 0), mk(OPTREAD, kO, 0), mk(TRY_X, 0, 0), mk(WRITE, 0), mk(SETVER, 0, 0, 0, 77), mk(REL, kX, 0)};
+    case 8: if (cls != kOpt) return {}; return {mk(GETVER, 0, 0), mk(TRY_S, 0, 0), mk(READ, kS, 0), mk(REL, kS, 0)};
+    case 9: if (cls != kOpt) return {}; return {mk(PREP, 0, 0), mk(OPTREAD, kC, 0), mk(CVERIFY, 0), mk(REL, kC, 0)};
+    case 10: if (cls != kOpt) return {}; return {mk(GETVER, 0, 0), mk(TRY_SIX, 0, 0), mk(UPG, 0, 0), mk(WRITE, 0), mk(REL, kX, 0)};
+    default: return {};
+  }
+}
+constexpr int kMini = 11;
+
+int
+sweep(const std::string &profile, const std::string &out, int shard, int nshards, bool three)
+{
+  g_outdir = out;
+  mkdir(out.c_str(), 0777);
+  vsched::Config cfg;
+  int clsmask = 7;
+  if (profile == "C03" || profile == "C09" || profile == "C13") clsmask = 2;
+  if (profile == "C11" || profile == "C12") clsmask = 4;
+  uint64_t progidx = 0, idx = 0;
+  auto run_one = [&](Case &c) {
+    g_curtext = lockcase::to_text(c);
+    g_curindex = idx++;
+    wk::write_file(out + "/cur.case", "# index " + std::to_string(g_curindex) + "\n" + g_curtext);
+    vsched::clear_reports();
+    Outcome oc;
+    lockinterp::run_case(c, cfg, oc, &g_phase);
+    C.evaluations++;
+    C.steps += vsched::stats().steps;
+    if (oc.contended || oc.conv_raced || oc.validate_raced || oc.prep_seen_x || oc.prep_fallback) {
+      C.nontrivial++;
+      C.nontrivial_hashes.insert(wk::fnv(g_curtext));
+      if (C.samples.size() < 3) C.samples.push_back(g_curtext);
+    }
+    std::set<std::string> kinds;
+    for (auto &r : vsched::reports()) {
+      C.report_kinds[r.kind]++;
+      if (kinds.insert(r.kind).second && C.viols.size() < 64) {
+        char fn[256];
+        snprintf(fn, sizeof fn, "%s/viol-%lu-%s.case", out.c_str(), g_curindex, r.kind.c_str());
+        wk::write_file(fn, g_curtext);
+        C.viols.push_back({r.kind, r.msg, fn, g_curindex});
+      }
+    }
+    return oc;
+  };
+  for (int cls = 0; cls < 3; cls++) {
+    if (((clsmask >> cls) & 1) == 0) continue;
+    const int nthr = three ? 3 : 2;
+    const int total = three ? kMini * kMini * kMini : kMini * kMini;
+    for (int code = 0; code < total; code++) {
+      const int w[3] = {code % kMini, (code / kMini) % kMini, three ? code / (kMini * kMini) : -1};
+      if (three && (w[0] > 5 || w[1] > 5 || w[2] > 5)) continue;
+      bool ok = true;
+      Case base;
+      base.cls = cls;
+      base.nlocks = 1;
+      base.threads.resize(nthr);
+      for (int t = 0; t < nthr; t++) {
+        base.threads[t].ops = mini(cls, w[t]);
+        if (base.threads[t].ops.empty()) ok = false;
+      }
+      if (!ok) continue;
+      if (static_cast<int>(progidx++ % static_cast<uint64_t>(nshards)) != shard) continue;
+      C.labels["sweep_programs"]++;
+      // base run without preemption gives the step counts
+      (void)run_one(base);
+      uint32_t len[3] = {0, 0, 0};
+      for (int t = 0; t < nthr; t++) len[t] = vsched::stats().lsteps[t] + 6;
+      std::vector<vsched::Preempt> pts;
+      for (int t = 0; t < nthr; t++) {
+        for (uint32_t st = 0; st < len[t]; st++) {
+          for (int tg = 0; tg < nthr - 1; tg++) pts.push_back({t, st, tg});
+        }
+      }
+      for (size_t i = 0; i < pts.size(); i++) {
+        Case c1 = base;
+        c1.sched.preempts = {pts[i]};
+        (void)run_one(c1);
+        for (size_t j = i + 1; j < pts.size(); j++) {
+          if (pts[j].thread == pts[i].thread && pts[j].lstep == pts[i].lstep) continue;
+          Case c2 = base;
+          c2.sched.preempts = {pts[i], pts[j]};
+          (void)run_one(c2);
+        }
+      }
+      flush_result();
+    }
+  }
+  C.next_index = idx;
+  C.done = true;
+  flush_result();
+  return 0;
+}
+
 }  // namespace
 
 int
 main(int argc, char **argv)
 {
   std::string mode, file, profile = "C01", out;
+  int shard = 0, nshards = 1;
+  bool three = false;
   uint64_t seed = 1, start = 0, count = 100;
   bool trace = false;
   for (int i = 1; i < argc; i++) {
@@ -115,10 +239,18 @@ main(int argc, char **argv)
       out = next();
     } else if (a == "--trace") {
       trace = true;
+    } else if (a == "--sweep") {
+      mode = "sweep";
+    } else if (a == "--three") {
+      three = true;
+    } else if (a == "--shard") {
+      const std::string v = next();
+      sscanf(v.c_str(), "%d/%d", &shard, &nshards);
     }
   }
   vsched::set_fatal_handler(on_fatal);
   if (mode == "replay") return replay(file, trace);
+  if (mode == "sweep") return sweep(profile, out, shard, nshards < 1 ? 1 : nshards, three);
   if (mode == "dump") {
     for (uint64_t i = start; i < start + count; i++) {
       Case c = lockgen::generate(profile, seed, i);
